@@ -253,6 +253,7 @@ class Sym:
         self.max_depth = max_depth
         self._memo: Dict[tuple, Term] = {}
         self._busy: set = set()
+        self._acc_busy: set = set()
         self.locals = {d.name for ds in self.rd.defs.values() for d in ds}
 
     # ------------------------------------------------------------------ public
@@ -395,7 +396,7 @@ class Sym:
 
     def _name(self, name: str, at: int, depth: int, cenv: dict) -> Term:
         key = (name, at)
-        if not cenv and key in self._memo:
+        if not cenv and not self._acc_busy and key in self._memo:
             return self._memo[key]
         if key in self._busy:
             return ("rec", name)
@@ -414,7 +415,7 @@ class Sym:
             res = mk_alt(vals, self.max_alts, name)
         finally:
             self._busy.discard(key)
-        if not cenv:
+        if not cenv and not self._acc_busy:
             self._memo[key] = res
         return res
 
@@ -441,8 +442,15 @@ class Sym:
                     and not hasattr(v, "lineno"):
                 return self._item(self._of(v.value, sd.nid, depth, cenv), v.slice.value)
             kind = self._fresh_kind(v)
-            if kind is not None:
-                contrib = self._contributions(name, sd, weak, depth, cenv)
+            literal_nonempty = isinstance(v, (ast.List, ast.Set, ast.Dict)) and bool(getattr(v, "elts", None) or getattr(v, "keys", None))
+            if kind is not None and not (literal_nonempty and not weak) and (name, sd.nid) not in self._acc_busy:
+                # what is added may itself be computed from the container (a work list): inside, the container
+                # stands for its initial contents only
+                self._acc_busy.add((name, sd.nid))
+                try:
+                    contrib = self._contributions(name, sd, weak, depth, cenv)
+                finally:
+                    self._acc_busy.discard((name, sd.nid))
                 if contrib is not None:
                     return ("acc", kind, tuple(self._initial_contrib(v, sd.nid, depth, cenv)) + tuple(contrib))
             return self._of(v, sd.nid, depth, cenv)
@@ -450,9 +458,11 @@ class Sym:
 
     @staticmethod
     def _fresh_kind(v) -> Optional[str]:
-        if isinstance(v, ast.List) and not v.elts:
+        if isinstance(v, ast.List) and not any(isinstance(e, ast.Starred) for e in v.elts):
             return "list"
-        if isinstance(v, ast.Dict) and not v.keys:
+        if isinstance(v, ast.Set) and not any(isinstance(e, ast.Starred) for e in v.elts):
+            return "set"
+        if isinstance(v, ast.Dict) and all(k is not None for k in v.keys):
             return "dict"
         if isinstance(v, ast.Call):
             n = (A.call_name(v) or "").split(".")[-1]
@@ -464,9 +474,23 @@ class Sym:
         return None
 
     def _initial_contrib(self, v, nid, depth, cenv):
-        if isinstance(v, ast.Call) and v.args and (A.call_name(v) or "").split(".")[-1] in ("set", "list", "deque"):
-            return [("many", (), self._of(v.args[0], nid, depth, cenv))]
+        if isinstance(v, ast.Call) and v.args and (A.call_name(v) or "").split(".")[-1] in ("set", "list", "deque", "dict", "OrderedDict"):
+            return self._splice("many", (), self._of(v.args[0], nid, depth, cenv))
+        if isinstance(v, (ast.List, ast.Set)):
+            return [("one", (), self._of(e, nid, depth, cenv)) for e in v.elts]
+        if isinstance(v, ast.Dict):
+            return [("kv", (), self._of(k, nid, depth, cenv), self._of(x, nid, depth, cenv)) for k, x in zip(v.keys, v.values)]
         return []
+
+    @staticmethod
+    def _splice(kind, g, term):
+        """`extend(<comprehension>)` contributes the comprehension's elements"""
+        if kind == "many" and isinstance(term, tuple) and term[:1] == ("acc",):
+            out = []
+            for c in term[2]:
+                out.append((c[0], tuple(g) + tuple(c[1])) + tuple(c[2:]))
+            return out
+        return [(kind, g, term)]
 
     def _contributions(self, name, init: Def, weak: List[Def], depth, cenv):
         """what is added to the fresh container `name` created at `init` by the weak definitions that reach the use"""
@@ -483,7 +507,7 @@ class Sym:
                 if m in ONE_ADDERS and len(c.args) == 1:
                     out.append(("one", g, self._of(c.args[0], w.nid, depth, cenv)))
                 elif m in MANY_ADDERS and len(c.args) == 1:
-                    out.append(("many", g, self._of(c.args[0], w.nid, depth, cenv)))
+                    out.extend(self._splice("many", g, self._of(c.args[0], w.nid, depth, cenv)))
                 elif m == "insert" and len(c.args) == 2:
                     out.append(("one", g, self._of(c.args[1], w.nid, depth, cenv)))
                 elif m in ("sort", "reverse"):
@@ -561,6 +585,10 @@ def events(cx, sym: Sym) -> List[Event]:
                         ev = Event(n.id, "del", st)
                         ev.target = sym.of(t, n.id)
                         out.append(ev)
+            elif isinstance(st, ast.Expr) and isinstance(st.value, (ast.Yield, ast.YieldFrom)):
+                ev = Event(n.id, "yield", st)
+                ev.value = sym.of(st.value.value, n.id) if st.value.value is not None else None
+                out.append(ev)
             elif isinstance(st, ast.Return):
                 ev = Event(n.id, "return", st)
                 ev.value = sym.of(st.value, n.id)
@@ -763,3 +791,116 @@ def subst(t, mapping: dict) -> Term:
         return mapping[t]
     new = tuple(subst(x, mapping) if isinstance(x, tuple) else x for x in t)
     return mapping.get(new, new)
+
+
+
+# ---------------------------------------------------------------------- string templates
+
+
+def norm_str(t) -> Term:
+    """f-string, str.format and %-formatting of a literal template in one form:
+    ("fstr", (("const", "'lit'") | ("fmt", conv, term), ...)); other terms are returned unchanged (recursively)."""
+    import string
+    if not isinstance(t, tuple):
+        return t
+    if t[:1] == ("fstr",):
+        parts = []
+        for x in t[1]:
+            if x[:1] == ("fmt",):
+                parts.append(("fmt", x[1], norm_str(x[2])))
+            else:
+                parts.append(x)
+        return ("fstr", _merge_lits(parts))
+    if is_call_of(t, meth="format") and t[1][1][:1] == ("const",) and t[1][1][1][:1] in ("'", '"'):
+        try:
+            tmpl = eval(t[1][1][1])        # a string literal's repr
+        except Exception:
+            return t
+        args, kws = t[2], dict(t[3])
+        parts, auto = [], 0
+        try:
+            for lit, field, spec, conv in string.Formatter().parse(tmpl):
+                if lit:
+                    parts.append(("const", repr(lit)))
+                if field is None:
+                    continue
+                if spec:
+                    return t
+                if field == "":
+                    val = args[auto]
+                    auto += 1
+                elif field.isdigit():
+                    val = args[int(field)]
+                elif field in kws:
+                    val = kws[field]
+                else:
+                    return t
+                parts.append(("fmt", "!" + conv if conv else "", norm_str(val)))
+        except (IndexError, ValueError):
+            return t
+        return ("fstr", _merge_lits(parts))
+    if t[:1] == ("op",) and t[1] == "%" and t[2][:1] == ("const",) and t[2][1][:1] in ("'", '"'):
+        try:
+            tmpl = eval(t[2][1])
+        except Exception:
+            return t
+        vals = list(t[3][1]) if t[3][:1] == ("tuple",) else [t[3]]
+        parts, i, pos = [], 0, 0
+        import re as _re
+        for mm in _re.finditer(r"%([srd%])", tmpl):
+            if mm.start() > pos:
+                parts.append(("const", repr(tmpl[pos:mm.start()])))
+            pos = mm.end()
+            if mm.group(1) == "%":
+                parts.append(("const", repr("%")))
+                continue
+            if i >= len(vals):
+                return t
+            parts.append(("fmt", "!r" if mm.group(1) == "r" else "", norm_str(vals[i])))
+            i += 1
+        if pos < len(tmpl):
+            parts.append(("const", repr(tmpl[pos:])))
+        if i != len(vals) or "%" in _re.sub(r"%[srd%]", "", tmpl):
+            return t
+        return ("fstr", _merge_lits(parts))
+    if t and isinstance(t[0], str):
+        return (t[0],) + tuple(norm_str(x) if isinstance(x, tuple) else x for x in t[1:])
+    return tuple(norm_str(x) if isinstance(x, tuple) else x for x in t)
+
+
+def _merge_lits(parts):
+    out = []
+    for p_ in parts:
+        if p_[:1] == ("const",) and out and out[-1][:1] == ("const",):
+            try:
+                out[-1] = ("const", repr(eval(out[-1][1]) + eval(p_[1])))
+                continue
+            except Exception:
+                pass
+        out.append(p_)
+    return tuple(out)
+
+
+def template(t):
+    """(literal skeleton with `{}` for holes, [(conv, term), ...]) of a normalised string template, or None"""
+    t = norm_str(t)
+    if t[:1] == ("const",) and t[1][:1] in ("'", '"'):
+        try:
+            return eval(t[1]), []
+        except Exception:
+            return None
+    if t[:1] != ("fstr",):
+        return None
+    skel, holes = "", []
+    for p_ in t[1]:
+        if p_[:1] == ("const",):
+            try:
+                skel += eval(p_[1]) if p_[1][:1] in ("'", '"') else str(p_[1])
+            except Exception:
+                return None
+        elif p_[:1] == ("fmt",):
+            skel += "{}"
+            holes.append((p_[1], p_[2]))
+        else:
+            return None
+    return skel, holes
